@@ -34,6 +34,7 @@ fn setup(ctx: &mut Ctx) {
     ctx.floor("by-name:query-with-embedded-nul", 500);
     ctx.floor("by-name:unterminated-tail-query", 50);
     ctx.floor("shstrtab-without-final-nul", 100);
+    ctx.floor("shstrtab-without-leading-nul", 100);
     ctx.floor("typed:refused", 5000);
     ctx.floor("typed:accepted-and-equal", 2000);
     ctx.floor("typed:segment-notes", 300);
@@ -383,7 +384,15 @@ fn run(ctx: &mut Ctx, _si: usize, _case: u64) {
     o.ragged = false;
     let (spec, m) = gen_object(&mut ctx.rng, enc, &o);
     let mut b = build(&spec, &mut ctx.rng);
-    if ctx.rng.chance(1, 4) && b.shstrndx != 0 {
+    if ctx.rng.chance(1, 6) && b.shstrndx != 0 {
+        // the name table starts one byte later: it no longer begins with a NUL, a name sits at offset 0 (the one the null
+        // section and every other sh_name == 0 header then carries) and every name is the old one minus its first byte
+        let off = b.secs[b.shstrndx].off;
+        let sz = b.secs[b.shstrndx].size;
+        if sz > 2 && b.poke(&format!("shdr[{}].sh_offset", b.shstrndx), off + 1) && b.poke(&format!("shdr[{}].sh_size", b.shstrndx), sz - 1) {
+            ctx.count("shstrtab-without-leading-nul");
+        }
+    } else if ctx.rng.chance(1, 4) && b.shstrndx != 0 {
         // the section-name string table loses its final NUL: its last name is then not a string any more
         let sz = b.secs[b.shstrndx].size;
         let cut = 1 + ctx.rng.below(3);
